@@ -31,6 +31,11 @@ func runC06(p *Prog, r *Report) {
 	c06R4(p, r)
 	indexRule(p, r, "C06.R5")
 	assignabilityRule(p, r, "C06.R6")
+	indexStableRule(p, r, "C06.R7")
+	parentPointerRule(p, r, "C06.R9")
+	calleeErrRule(p, r, "C06.R8", "the error of Index.Get (`a function for these types exists but its context is not available`) is never dropped: at every call no success return is reachable while it may be non-nil — generation fails instead of silently using another rule", 2, func(f *types.Func) bool {
+		return isFunc(f, modPath+"/method", "Index", "Get")
+	})
 }
 
 func c06R1(p *Prog, r *Report) {
